@@ -226,9 +226,11 @@ def sk_decode(p, sk):
     return rho, key, tr, s1, s2, t0
 
 
-def sign(p, sk, mprime, rnd=None, rhopp_override=None, max_attempts=2000, want_trace=False):
+def sign(p, sk, mprime, rnd=None, rhopp_override=None, max_attempts=2000, want_trace=False, ct_tweak=None):
     """Sign_internal. Dilithium: rho'' = H(K||mu) (deterministic) or the given 64 random bytes.
-    ML-DSA: rho'' = H(K||rnd||mu) with rnd = 32 zero bytes when deterministic."""
+    ML-DSA: rho'' = H(K||rnd||mu) with rnd = 32 zero bytes when deterministic.
+    ct_tweak = (index, xor): a MODIFIED signer for near-miss searches — byte `index` of the commitment hash is altered before
+    the challenge is sampled, everything else is done honestly (the verifier recomputes the unaltered hash, so Verify rejects)."""
     rho, key, tr, s1, s2, t0 = sk_decode(p, sk)
     A = expand_a(p, rho)
     s1h, s2h, t0h = [ntt(x) for x in s1], [ntt(x) for x in s2], [ntt(x) for x in t0]
@@ -247,6 +249,8 @@ def sign(p, sk, mprime, rnd=None, rhopp_override=None, max_attempts=2000, want_t
         w = [intt(x) for x in matvec(A, [ntt(v) for v in y])]
         w1 = [[highbits(p, c) for c in poly] for poly in w]
         ct = H(mu + w1_encode(p, w1), p.ct)
+        if ct_tweak is not None:
+            ct = bytearray(ct); ct[ct_tweak[0]] ^= ct_tweak[1]; ct = bytes(ct)
         c = sample_in_ball(p, ct)
         ch = ntt(c)
         cs1 = [intt(pmul(ch, s)) for s in s1h]
